@@ -7,6 +7,7 @@ C03.c translation round trip (a rule or fold applied to the wrong operator is no
 C03.d size gating: in size mode a fold is applied only under the byte-size comparison
 C03.e record consistency where a rewriting rule re-labels an instruction record
 C03.f context rules are identities on the pattern family
+C03.g type-1 rule application preserves the denotation
 """
 import ast
 import itertools
